@@ -27,6 +27,9 @@ def windows(tier, seed):
             base = vals[0] + vals[1] * 10 ** 8 + vals[2] * 10 ** 16
             if base + (1 << W) < (1 << 64):
                 out.append((base, 0, 'digit group %d sweeping around %d, other groups seeded' % (grp, pivot)))
+    for hi in (1, 1843, rnd.randrange(2, 1843)):
+        for mid in (1, 99999999, rnd.randrange(2, 99999999)):
+            out.append((hi * 10 ** 16 + mid * 10 ** 8 - half, 0, 'around a 17-20 digit value whose low 8 digits are zero (the /10^8 split of the low 16 digits)'))
     for i in range(4 if tier == 'quick' else 16):
         out.append((rnd.randrange(0, (1 << 64) - (1 << W)), 0, 'seeded pivot'))
     # signed entry
